@@ -257,7 +257,7 @@ def _session_of(path, idx):
         cur = []
         for i, line in enumerate(f, 1):
             e = json.loads(line)
-            if e["ev"] in ("load", "loadfail"):
+            if e["ev"] in ("load", "loadfail", "hang"):
                 cur = []
             cur.append(e)
             if i == idx:
@@ -369,7 +369,7 @@ def _replay_B(chk, cfg, stride=1):
     os.remove(bpath)
 
 
-def _run_family(pid, rule, assumptions, jobs_fn, replay, mc=None, replay_b=None):
+def _run_family(pid, rule, assumptions, jobs_fn, replay, mc=None, replay_b=None, extra_fn=None):
     chk = Check(pid)
     chk.rule = rule
     chk.assumptions = assumptions
@@ -385,6 +385,8 @@ def _run_family(pid, rule, assumptions, jobs_fn, replay, mc=None, replay_b=None)
     if replay_b:
         cfg, stride = replay_b(thorough)
         _replay_B(chk, cfg, stride)
+    if extra_fn:
+        extra_fn(chk, thorough)
     chk.distinct = max(chk.distinct, 2)
     samples = list(chk.samples)
     for e in vlib.sample_lines(traces[0], 12):
@@ -455,10 +457,44 @@ DBG_RULE = ("session = program (catalogue of control-flow shapes + seeded struct
             "(printed lines, full state diff over 65,536 words, breakpoint list), every executed instruction and the way the session ended. distinct = sessions")
 
 
+def _c09_cli_pairs(chk, thorough):
+    """The same at the level of the real binary: `lace run p` against `lace debug p --command <non-mutating script ending in quit>`,
+    both fed the program's input on stdin; standard output (line breaks aside) and exit status must agree (Trace_Cli!DbgPairOk)."""
+    import random
+    vlib.build(need_cli=True)
+    d, man = _files(chk, "exec", 40 if thorough else 10)
+    pure = ["step", "s", "step into 3", "si 2", "step into", "r", "registers", "p r0", "print ^", "print r7", "assembly", "a ^1", "break list", "bl", "echo hi", "echo a b",
+            "help", "h", "continue", "c", "break add ^1", "break remove ^1", "ba x3001", "bogus", "", "step out"]
+
+    def pair(job):
+        idx, c = job
+        rnd = random.Random(chk.seed * 1000 + idx)
+        evs = []
+        inp = bytes(c["input"])
+        a = vlib.run_lace(["run", "--minimal"] + _flag(c["stack"]) + [c["path"]], stdin=inp)
+        for rep in range(3 if thorough else 2):
+            cmds = [rnd.choice(pure) for _ in range(rnd.randint(0, 6))] + [rnd.choice(["quit", "q", "Quit"])]
+            script = ""
+            for i, cm in enumerate(cmds):
+                last = i == len(cmds) - 1
+                script += cm + (rnd.choice(["", ";", "\n", " "]) if last else rnd.choice([";", "\n", " ; ", ";;"]))
+            if rep == 1 and inp:
+                # the program still has input to read when the session ends: the shortest endings, nothing after the last command
+                script = rnd.choice(["q", "s;q", "r;q", "step into 2\nq", "s;s;s;q", "c;q"])
+            b = vlib.run_lace(["debug", "--minimal"] + _flag(c["stack"]) + [c["path"], "--command", script], stdin=inp)
+            norm = lambda o: _norm_out(o, [c["path"]]).replace("\n", "")
+            evs.append({"ev": "dbgpair", "tag": c["tag"], "run": [a[0], norm(a[1])], "dbg": [b[0], norm(b[1])], "script": script, "src": c["src"]})
+        return evs
+    events = [e for evs in parallel(pair, list(enumerate(man)), 8) for e in evs]
+    _cli_validate(chk, events, "dbgpair")
+    _shutil.rmtree(d, ignore_errors=True)
+
+
 def check_C09(replay=None):
-    return _run_family("C09", DBG_RULE % "only non-mutating commands with arbitrary arguments, ending in quit / end of input; the same image is also run without debugger and final registers, PC, CC, all memory, output and exit kind are compared",
+    return _run_family("C09", DBG_RULE % "only non-mutating commands with arbitrary arguments, ending in quit / end of input; the same image is also run without debugger and final registers, PC, CC, all memory, output and exit kind are compared; "
+                                         "real binary: `lace run` against `lace debug --command <non-mutating script; quit>` with the program's input on stdin (stdout and exit status)",
                        DBG_ASSUME, _dbg_jobs("pure", enum_len=None), replay, mc=_mc_dbg("pure"),
-                       replay_b=lambda th: ("Gen_Debugger_pure_deep.cfg" if th else "Gen_Debugger_pure.cfg", 1))
+                       replay_b=lambda th: ("Gen_Debugger_pure_deep.cfg" if th else "Gen_Debugger_pure.cfg", 1), extra_fn=_c09_cli_pairs)
 
 
 def check_C10(replay=None):
@@ -515,7 +551,7 @@ def _transport_events(chk, n, seed):
     os.makedirs(d, exist_ok=True)
     src = os.path.join(d, "t.asm")
     open(src, "w").write("halt\n")
-    pieces = ["echo a", " echo b ", "echo  c d", "", "  ", "echo é", "echo 😀x", "echo ✓", "ECHO up", "echo", "bogus", "echo a;b".split(";")[0], "echo tab\tin", "r", "echo \r"]
+    pieces = ["echo a", " echo b ", "echo  c d", "", "  ", "echo é", "echo 😀x", "echo ✓", "ECHO up", "echo", "bogus", "echo a;b".split(";")[0], "echo tab\tin", "r", "echo \r", "r", "R", "reg", " r", "h"]
     events = []
     for k in range(n):
         m = rnd.randint(0, 6)
@@ -532,7 +568,9 @@ def _transport_events(chk, n, seed):
             if arg != "" or cut == len(script):
                 argv += ["--command", arg]
             code, out, err = vlib.run_lace(argv, stdin=stdin.encode())
-            lines = [x for x in err.decode("utf-8", "replace").split("\n") if x.startswith("[") and x.endswith("]")]
+            # what shows which commands arrived: echoed text, and one marker per register dump
+            lines = [("<registers>" if x.startswith("PC x") else x) for x in err.decode("utf-8", "replace").split("\n")
+                     if (x.startswith("[") and x.endswith("]")) or x.startswith("PC x")]
             events.append({"ev": "transport", "arg": vlib.chars(arg), "stdin": vlib.chars(stdin), "lines": lines, "code": code,
                            "script": script, "cut": cut})
     return events
